@@ -139,17 +139,17 @@ Proof.
 Qed.
 
 (* ---------- a parse the decoder reproduces ---------- *)
-Definition tok_ok (x : list N) (pos : N) (m : pmatch) : Prop :=
+Definition tok_ok (lit : N -> list N) (x : list N) (pos : N) (m : pmatch) : Prop :=
   match m with
-  | Literal l => slice x pos l = placeholder_lit l
+  | Literal l => slice x pos l = lit l
   | Global _ _ => False
   | RLE b l => slice x pos l = repeat b (N.to_nat l)
   | NearShort d l | Far1Short d l | Far2Short d l | Far2Long d l | Far3Long d l => true_match x pos d l
   end.
-Fixpoint parse_ok (x : list N) (ms : list pmatch) (pos : N) : Prop :=
+Fixpoint parse_ok (lit : N -> list N) (x : list N) (ms : list pmatch) (pos : N) : Prop :=
   match ms with
   | [] => True
-  | m :: t => tok_ok x pos m /\ parse_ok x t (pos + m_length m)
+  | m :: t => tok_ok lit x pos m /\ parse_ok lit x t (pos + m_length m)
   end.
 
 Lemma slice_len_bound (x : list N) pos l :
@@ -160,11 +160,15 @@ Qed.
 Lemma placeholder_lit_length l : length (placeholder_lit l) = N.to_nat l.
 Proof. unfold placeholder_lit. rewrite map_length, seq_length. reflexivity. Qed.
 
-Lemma tok_ok_bound x pos m : pos <= nlen x -> tok_ok x pos m -> pos + m_length m <= nlen x.
+(* a substitution for literal tokens that has the token's length *)
+Definition lit_len (lit : N -> list N) : Prop := forall l, length (lit l) = N.to_nat l.
+
+Lemma tok_ok_bound lit x pos m :
+  lit_len lit -> pos <= nlen x -> tok_ok lit x pos m -> pos + m_length m <= nlen x.
 Proof.
-  intros Hp H. destruct m; cbn [tok_ok m_length] in *; try contradiction;
+  intros Hlit Hp H. destruct m; cbn [tok_ok m_length] in *; try contradiction;
     try (destruct H as (_ & _ & Hb & _); exact Hb).
-  - apply slice_len_bound; [|exact Hp]. rewrite H. apply placeholder_lit_length.
+  - apply slice_len_bound; [|exact Hp]. rewrite H. apply Hlit.
   - apply slice_len_bound; [|exact Hp]. rewrite H. apply repeat_length.
 Qed.
 
@@ -179,11 +183,11 @@ Proof.
   rewrite simd_copy_is_lz_copy_proof, (true_match_copy x pos d l T). reflexivity.
 Qed.
 
-Lemma step_ok x pos m :
-  pos <= nlen x -> nlen x <= MAX_DECOMPRESSED_SIZE -> tok_ok x pos m ->
-  simd_step placeholder_lit (firstn (N.to_nat pos) x) m = Ok (firstn (N.to_nat (pos + m_length m)) x).
+Lemma step_ok lit x pos m :
+  lit_len lit -> pos <= nlen x -> nlen x <= MAX_DECOMPRESSED_SIZE -> tok_ok lit x pos m ->
+  simd_step lit (firstn (N.to_nat pos) x) m = Ok (firstn (N.to_nat (pos + m_length m)) x).
 Proof.
-  intros Hp Hmax H. pose proof (tok_ok_bound x pos m Hp H) as Hb.
+  intros Hlit Hp Hmax H. pose proof (tok_ok_bound lit x pos m Hlit Hp H) as Hb.
   unfold simd_step. rewrite nlen_firstn by exact Hp.
   destruct (N.ltb_spec (MAX_DECOMPRESSED_SIZE - pos) (m_length m)) as [Hx|_]; [exfalso; lia|].
   destruct m; cbn [tok_ok m_length] in *; try contradiction;
@@ -192,16 +196,16 @@ Proof.
   - rewrite firstn_slice, H. reflexivity.
 Qed.
 
-Lemma reconstruct_ok x :
-  nlen x <= MAX_DECOMPRESSED_SIZE ->
-  forall ms pos, pos <= nlen x -> parse_ok x ms pos ->
-  simd_reconstruct_from placeholder_lit ms (firstn (N.to_nat pos) x) =
+Lemma reconstruct_ok lit x :
+  lit_len lit -> nlen x <= MAX_DECOMPRESSED_SIZE ->
+  forall ms pos, pos <= nlen x -> parse_ok lit x ms pos ->
+  simd_reconstruct_from lit ms (firstn (N.to_nat pos) x) =
     Ok (firstn (N.to_nat (pos + tok_sum ms)) x) /\ pos + tok_sum ms <= nlen x.
 Proof.
-  intros Hmax. induction ms as [|m t IH]; intros pos Hp H; cbn [simd_reconstruct_from tok_sum].
+  intros Hlit Hmax. induction ms as [|m t IH]; intros pos Hp H; cbn [simd_reconstruct_from tok_sum].
   - rewrite N.add_0_r. split; [reflexivity|exact Hp].
-  - destruct H as [Hm Ht]. rewrite (step_ok x pos m Hp Hmax Hm). cbn [rbind].
-    pose proof (tok_ok_bound x pos m Hp Hm) as Hb.
+  - destruct H as [Hm Ht]. rewrite (step_ok lit x pos m Hlit Hp Hmax Hm). cbn [rbind].
+    pose proof (tok_ok_bound lit x pos m Hlit Hp Hm) as Hb.
     destruct (IH (pos + m_length m) Hb Ht) as [E B]. rewrite E.
     split; [do 3 f_equal; lia|lia].
 Qed.
@@ -215,30 +219,31 @@ Proof.
 Qed.
 
 (* the core: a reproducible parse that covers the payload and ends with < 3 padding bits *)
-Lemma core_roundtrip x ms z total :
-  nlen x <= MAX_DECOMPRESSED_SIZE -> Forall wt ms -> parse_ok x ms 0 -> tok_sum ms = nlen x ->
+Lemma core_roundtrip lit x ms z total :
+  lit_len lit ->
+  nlen x <= MAX_DECOMPRESSED_SIZE -> Forall wt ms -> parse_ok lit x ms 0 -> tok_sum ms = nlen x ->
   encode_matches ms = Some (z, total) -> pad_bits total < 3 ->
-  simd_decompress z = Ok x.
+  simd_decompress_g lit z = Ok x.
 Proof.
-  intros Hmax Hwt Hp Hsum E Hpad.
+  intros Hlit Hmax Hwt Hp Hsum E Hpad.
   destruct (encoded_facts ms z total Hwt E) as (He & -> & _ & Hlen & _).
   destruct x as [|x0 xt].
   - rewrite (tok_sum_pos ms He Hsum) in E. vm_compute in E. injection E as <-. reflexivity.
   - destruct z as [|z0 zt].
     + exfalso. cbn [nlen] in Hlen, Hsum. destruct ms as [|m t]; [cbn [tok_sum] in Hsum; lia|].
       pose proof (widths_ge (m :: t)) as W. cbn [nlen] in W. lia.
-    + unfold simd_decompress, simd_decompress_g, simd_decode_matches, SIMD_DECODE_GUARD.
+    + unfold simd_decompress_g, simd_decode_matches, SIMD_DECODE_GUARD.
       rewrite (simd_tokens_roundtrip_proof ms Hwt _ _ E Hpad). cbn [rbind].
       unfold simd_reconstruct_g.
-      destruct (reconstruct_ok (x0 :: xt) Hmax ms 0 ltac:(lia) Hp) as [R _].
+      destruct (reconstruct_ok lit (x0 :: xt) Hlit Hmax ms 0 ltac:(lia) Hp) as [R _].
       change (firstn (N.to_nat 0) (x0 :: xt)) with (@nil N) in R. rewrite R. f_equal.
       rewrite N.add_0_l, Hsum, nlen_length, Nnat.Nat2N.id. apply firstn_all.
 Qed.
 
 (* ---------- from the boolean walkers ---------- *)
-Lemma walks_parse_ok x ms : forall pos,
-  simd_walk (lit_okb placeholder_lit x) ms pos = true -> simd_walk (rle_okb x) ms pos = true ->
-  simd_walk (ref_okb x) ms pos = true -> parse_ok x ms pos.
+Lemma walks_parse_ok lit x ms : forall pos,
+  simd_walk (lit_okb lit x) ms pos = true -> simd_walk (rle_okb x) ms pos = true ->
+  simd_walk (ref_okb x) ms pos = true -> parse_ok lit x ms pos.
 Proof.
   induction ms as [|m t IH]; intros pos H1 H2 H3; cbn [simd_walk parse_ok] in *; [exact I|].
   apply andb_true_iff in H1, H2, H3. destruct H1 as [L1 L2], H2 as [R1 R2], H3 as [F1 F2].
@@ -247,10 +252,10 @@ Proof.
     try (apply true_matchb_true; exact F1); apply eqb_ln_eq; assumption.
 Qed.
 
-Lemma gen_parse_ok x ms : forall pos,
+Lemma gen_parse_ok lit x ms : forall pos,
   gen_ok x ms pos ->
-  simd_walk (lit_okb placeholder_lit x) ms pos = true -> simd_walk (rle_okb x) ms pos = true ->
-  parse_ok x ms pos.
+  simd_walk (lit_okb lit x) ms pos = true -> simd_walk (rle_okb x) ms pos = true ->
+  parse_ok lit x ms pos.
 Proof.
   induction ms as [|m t IH]; intros pos G H1 H2; cbn [simd_walk parse_ok gen_ok] in *; [exact I|].
   apply andb_true_iff in H1, H2. destruct H1 as [L1 L2], H2 as [R1 R2].
@@ -265,31 +270,40 @@ Lemma pad_ok_total ms z total :
 Proof. intros E H. unfold simd_pad_ok in H. rewrite E in H. apply N.ltb_lt. exact H. Qed.
 
 (* any reproducible parse, however it was found *)
-Lemma simd_stream_roundtrip_proof :
-  forall x ms z total,
+Lemma simd_stream_roundtrip_g_proof :
+  forall lit x ms z total, lit_len lit ->
   Forall wt ms -> encode_matches ms = Some (z, total) ->
-  simd_lits_ok x ms = true -> simd_rles_ok x ms = true -> simd_refs_ok x ms = true ->
+  simd_lits_ok_g lit x ms = true -> simd_rles_ok x ms = true -> simd_refs_ok x ms = true ->
   simd_pad_ok ms = true -> simd_covers x ms = true -> nlen x <= MAX_DECOMPRESSED_SIZE ->
-  simd_decompress z = Ok x.
+  simd_decompress_g lit z = Ok x.
 Proof.
-  intros x ms z total Hwt E H1 H2 H3 Hpad Hc Hmax.
-  apply (core_roundtrip x ms z total Hmax Hwt).
+  intros lit x ms z total Hlit Hwt E H1 H2 H3 Hpad Hc Hmax.
+  apply (core_roundtrip lit x ms z total Hlit Hmax Hwt).
   - apply walks_parse_ok; assumption.
   - apply N.eqb_eq. exact Hc.
   - exact E.
   - eapply pad_ok_total; eassumption.
 Qed.
 
-(* the compressor, over every finder that answers true matches *)
-Lemma simd_lz77_roundtrip_proof :
-  forall et stop find x ms z,
+Lemma simd_stream_roundtrip_proof :
+  forall x ms z total,
+  Forall wt ms -> encode_matches ms = Some (z, total) ->
+  simd_lits_ok x ms = true -> simd_rles_ok x ms = true -> simd_refs_ok x ms = true ->
+  simd_pad_ok ms = true -> simd_covers x ms = true -> nlen x <= MAX_DECOMPRESSED_SIZE ->
+  simd_decompress z = Ok x.
+Proof. intros x ms z total. apply simd_stream_roundtrip_g_proof. exact placeholder_lit_length. Qed.
+
+(* the compressor, over every finder that answers true matches; `lit` = what the decoder substitutes
+   for a literal token (the code: the placeholder text) *)
+Lemma simd_lz77_roundtrip_g_proof :
+  forall lit et stop find x ms z, lit_len lit ->
   finder_sound x find ->
   simd_find_matches et stop find x = Ok ms -> simd_compress et stop find x = Ok z ->
-  simd_lits_ok x ms = true -> simd_rles_ok x ms = true -> simd_pad_ok ms = true ->
+  simd_lits_ok_g lit x ms = true -> simd_rles_ok x ms = true -> simd_pad_ok ms = true ->
   simd_covers x ms = true -> nlen x <= MAX_DECOMPRESSED_SIZE ->
-  simd_decompress z = Ok x.
+  simd_decompress_g lit z = Ok x.
 Proof.
-  intros et stop find x ms z Hs Hf Hc H1 H2 Hpad Hcov Hmax.
+  intros lit et stop find x ms z Hlit Hs Hf Hc H1 H2 Hpad Hcov Hmax.
   destruct x as [|x0 xt]; [cbn [simd_compress] in Hc; injection Hc as <-; reflexivity|].
   unfold simd_compress in Hc. rewrite Hf in Hc. cbn [rbind] in Hc. unfold simd_encode in Hc.
   destruct (encode_matches ms) as [[z' total]|] eqn:E; [|discriminate]. injection Hc as ->.
@@ -297,13 +311,21 @@ Proof.
   assert (Hn : nlen (x0 :: xt) < 4294967296) by (unfold MAX_DECOMPRESSED_SIZE in Hmax; lia).
   destruct (find_loop_spec et stop find (x0 :: xt) Hs Hn _ _ _ _ Hf) as (new & Hms & G & _).
   cbn [app] in Hms. subst new.
-  apply (core_roundtrip (x0 :: xt) ms z total Hmax).
+  apply (core_roundtrip lit (x0 :: xt) ms z total Hlit Hmax).
   - eapply gen_ok_wt. exact G.
   - apply gen_parse_ok; assumption.
   - apply N.eqb_eq. exact Hcov.
   - exact E.
   - eapply pad_ok_total; eassumption.
 Qed.
+Lemma simd_lz77_roundtrip_proof :
+  forall et stop find x ms z,
+  finder_sound x find ->
+  simd_find_matches et stop find x = Ok ms -> simd_compress et stop find x = Ok z ->
+  simd_lits_ok x ms = true -> simd_rles_ok x ms = true -> simd_pad_ok ms = true ->
+  simd_covers x ms = true -> nlen x <= MAX_DECOMPRESSED_SIZE ->
+  simd_decompress z = Ok x.
+Proof. intros et stop find x ms z. apply simd_lz77_roundtrip_g_proof. exact placeholder_lit_length. Qed.
 
 (* (iv) holds whenever the early termination did not fire on the final token list,
    in particular with enable_early_termination = false and for parses of at most 1000 tokens *)
